@@ -27,6 +27,7 @@ class WireStack:
         self.transport = None
         self.protocol = None
         self.ezsp = None
+        self.transport_errors = None  # see _fatal_error
         self.silent = False  # NCP stops reacting at all
         self.naks_before_silence = 0
         self.connects = 0
@@ -106,7 +107,13 @@ class WireStack:
         return self.ezsp
 
     def _fatal_error(self, exc):
-        """protocol.data_received() raised: real transports log, force-close and report the loss."""
+        """protocol.data_received() raised.  asyncio's own (socket) transports call _fatal_error(): log,
+        force-close, connection_lost(exc).  Serial-port transports (pyserial-asyncio style) do not wrap
+        the call: the exception ends up in the loop's exception handler and the port stays open.  Both
+        behaviours are produced: `transport_errors` = "close" | "log" (default: by device path)."""
+        mode = self.transport_errors or ("close" if str(self.path).startswith("socket") else "log")
+        if mode == "log":
+            return
         proto, tr = self.protocol, self.transport
         if proto is None or tr._closing:
             return
